@@ -189,6 +189,20 @@ def cube_vec_to_world(vec: torch.Tensor, grid: Grid, axes: str) -> torch.Tensor:
     return w.movedim(-1, 0)
 
 
+def world_vec_to_axes(w: torch.Tensor, grid: Grid, axes: str) -> torch.Tensor:
+    """World vectors (D, ...spatial) -> vectors in ``axes`` units of grid; inverse of cube_vec_to_world, own algebra."""
+    if axes == "world":
+        return w.double()
+    size = [int(s) for s in grid.size()]
+    v = w.double().movedim(0, -1)
+    idx = (v @ grid.direction().double()) / grid.spacing().double()
+    if axes != "grid":
+        ac = axes == "cube_corners"
+        f = torch.tensor([(n - 1) / 2.0 if ac else n / 2.0 for n in size], dtype=torch.float64)
+        idx = idx / f
+    return idx.movedim(-1, 0)
+
+
 @dataclass
 class Record:
     path: str
@@ -202,6 +216,7 @@ class Record:
     flow: Optional[torch.Tensor] = None
     compress: bool = False
     desc: Dict[str, Any] = field(default_factory=dict)
+    file_axes: Optional[str] = None  # flow written with write(path, axes=...): the file holds vectors in these units
 
 
 class ShortRaw(io.RawIOBase):
@@ -474,6 +489,14 @@ class _Ops:
             expected = cube_vec_to_world(flow_t, grid, axes).numpy().astype(np.dtype(desc["dtype"]))
             entry = "FlowField.write"
             call = lambda: obj.write(arg, compress=compress)
+            waxes = op.get("waxes")
+            if waxes and op.get("entry") != "sitk_bridge":
+                # write(path, axes=A): the file holds the vectors in A units (FlowField.read(path, axes=A) declares that)
+                expected = world_vec_to_axes(cube_vec_to_world(flow_t, grid, axes), grid, waxes).numpy().astype(np.dtype(desc["dtype"]))
+                entry = "FlowField.write(axes)"
+                call = lambda: obj.write(arg, axes=Axes(waxes), compress=compress)
+            else:
+                waxes = None
             if op.get("entry") == "sitk_bridge":
                 # deepali's tensor -> SimpleITK conversion, SimpleITK's own writer
                 entry = "FlowField.sitk+WriteImage"
@@ -562,7 +585,8 @@ class _Ops:
         after = self.snapshot()
         touched = self.changed(before, after)
         self.invalidate(touched, keep=name)
-        rec = Record(name, kind, expected, hdr, set(), "deepali", True, (axes if kind == "flow" else op.get("axes")), flow_t, compress, dict(desc))
+        rec = Record(name, kind, expected, hdr, set(), "deepali", True, (axes if kind == "flow" else op.get("axes")), flow_t, compress, dict(desc),
+                     file_axes=(waxes if kind == "flow" else None))
         out = StepResult("ok", self.fs_digest(after))
         foreign = {t for t in touched if not t.startswith(self.stem_of(name) + ".")}
         if st == "faulted":
@@ -681,16 +705,16 @@ class _Ops:
                 rd.ReadImageInformation()
                 return None, Grid.from_reader(rd, **kw)
             if entry == "FlowField.from_image":
-                f = FlowField.from_image(Image.read(arg, **kw), axes=Axes.WORLD)
+                f = FlowField.from_image(Image.read(arg, **kw), axes=Axes(rec.file_axes) if rec.file_axes else Axes.WORLD)
                 return f, f.grid()
             if entry == "FlowField.read":
-                f = FlowField.read(arg, **kw)
+                f = FlowField.read(arg, axes=Axes(rec.file_axes), **kw) if rec.file_axes else FlowField.read(arg, **kw)
                 return f, f.grid()
             if entry == "from_sitk":
                 im = Image.from_sitk(sitk.ReadImage(p), **kw)
                 return im.tensor(), im.grid()
             if entry == "FlowField.from_sitk":
-                f = FlowField.from_sitk(sitk.ReadImage(p), **kw)
+                f = FlowField.from_sitk(sitk.ReadImage(p), axes=Axes(rec.file_axes), **kw) if rec.file_axes else FlowField.from_sitk(sitk.ReadImage(p), **kw)
                 return f, f.grid()
             if entry == "meta_bytes":
                 with open(p, "rb") as fh:
@@ -1040,6 +1064,8 @@ class _Gen:
                 op["form"] = self.rel_bias(rng, name, rng.weighted([("str", 4), ("path", 2), ("uri", 1), ("rel", 1)]))
                 if pk == "flow":
                     op["axes"] = rng.choice(["world", "grid", "cube", "cube_corners", "default"])
+                    if rng.chance(0.25):
+                        op["waxes"] = rng.choice(["grid", "cube", "cube_corners"])
                     if rng.chance(0.15):
                         op["entry"] = "sitk_bridge"
                 else:
@@ -1134,7 +1160,7 @@ class IoEngine:
             o = dict(op)
             o.pop("fault")
             out.append(o)
-        for key in ("ac", "edit_grid", "hold", "consumed"):
+        for key in ("ac", "edit_grid", "hold", "consumed", "waxes"):
             if key in op:
                 o = dict(op)
                 o.pop(key)
